@@ -1,6 +1,785 @@
-//! C16 — not built yet.
-use vcommon::Args;
+//! C16 — the server-side SASL handshake authenticates exactly the right peers.
+//!
+//! Bounded exhaustive history tree over a client line alphabet, every transcript executed on the
+//! real server handshake (`connection::Builder::socket(..).server(guid).p2p().build()` over a
+//! scripted socket) and compared line by line with the reference server machine of `refsasl`.
+//! No state merging: a prefix is extended exactly when the real handshake is still waiting for
+//! input after it (and the reference could follow what the implementation did).
 
-pub fn main(_args: &Args) -> i32 {
-    vcommon::machinery_failure("C16: check not built yet")
+use std::{
+    collections::{BTreeMap, BTreeSet},
+    sync::Mutex,
+};
+
+use serde_json::{json, Value};
+use vcommon::{catch, enumerate, hash64, par_for, Args, Report, Violation};
+use zbus::{connection::Builder, AuthMechanism, Connection};
+
+use crate::{
+    refsasl::{
+        classify_server_reply, hex_of, Alt, Expectation, Mech, Next, Reply, SState, ServerCfg, ServerRef,
+        CL_COMPLETES, CL_EXTERNAL, CL_PANIC, CL_SPLIT,
+    },
+    world::{Link, SockCfg, World, GUID},
+};
+
+const UID: u32 = 1000;
+const OTHER_UID: u32 = 1001;
+
+#[derive(Clone, Copy, Debug, PartialEq, Eq, Hash)]
+struct Cfg {
+    mech: Mech,
+    uid: Option<u32>,
+    fd: bool,
+    /// The stream starts with the mandatory NUL byte.
+    nul: bool,
+}
+
+impl Cfg {
+    fn json(&self) -> Value {
+        json!({"mech": self.mech.name(), "uid": self.uid, "fd": self.fd, "nul": self.nul})
+    }
+    fn from_json(v: &Value) -> Cfg {
+        Cfg {
+            mech: Mech::parse(v["mech"].as_str().unwrap_or("EXTERNAL")).unwrap_or(Mech::External),
+            uid: v["uid"].as_u64().map(|u| u as u32),
+            fd: v["fd"].as_bool().unwrap_or(true),
+            nul: v["nul"].as_bool().unwrap_or(true),
+        }
+    }
+    fn server_cfg(&self) -> ServerCfg {
+        ServerCfg {
+            mech: self.mech,
+            peer_uid: self.uid,
+            can_pass_fd: self.fd,
+        }
+    }
+}
+
+/// The client line alphabet (raw bytes including the line terminator).
+fn alphabet() -> Vec<Vec<u8>> {
+    let uid = hex_of(&UID.to_string());
+    let other = hex_of(&OTHER_UID.to_string());
+    let nonnum = hex_of("root");
+    let mut a: Vec<String> = vec![
+        "AUTH".into(),
+        "AUTH EXTERNAL".into(),
+        format!("AUTH EXTERNAL {uid}"),
+        format!("AUTH EXTERNAL {other}"),
+        format!("AUTH EXTERNAL {nonnum}"),
+        "AUTH EXTERNAL 313".into(), // odd number of hex digits
+        "AUTH ANONYMOUS".into(),
+        format!("AUTH ANONYMOUS {}", hex_of("zbus")),
+        "AUTH FOO".into(),
+        "DATA".into(),
+        format!("DATA {uid}"),
+        format!("DATA {other}"),
+        "DATA 3g".into(), // not hex
+        "BEGIN".into(),
+        "CANCEL".into(),
+        "ERROR x".into(),
+        "NEGOTIATE_UNIX_FD".into(),
+        "FOO".into(),
+        "".into(),
+    ]
+    .into_iter()
+    .map(|s| s + "\r\n")
+    .collect();
+    // stray line endings: LF without CR
+    a.push("\n".into());
+    a.push("BEGIN\n".into());
+    a.push("AUTH\n".into());
+    a.into_iter().map(String::into_bytes).collect()
+}
+
+#[derive(Clone, Debug, PartialEq, Eq)]
+enum Status {
+    /// build() has not returned and nothing is runnable: the handshake waits for input.
+    Waiting,
+    Authenticated,
+    Aborted(String),
+    Panic(String),
+}
+
+impl Status {
+    fn class(&self) -> &'static str {
+        match self {
+            Status::Waiting => "waiting",
+            Status::Authenticated => "authenticated",
+            Status::Aborted(_) => "aborted",
+            Status::Panic(_) => "panic",
+        }
+    }
+    fn terminated(&self) -> bool {
+        !matches!(self, Status::Waiting)
+    }
+}
+
+#[derive(Clone, Debug)]
+struct StepObs {
+    /// What the server wrote after this chunk was delivered.
+    reply: Vec<u8>,
+    status: Status,
+}
+
+/// Execute the real server handshake on a fresh world: deliver `chunks` one by one, running the
+/// world to quiescence after each. Stops delivering once the handshake has terminated.
+fn execute(cfg: &Cfg, chunks: &[&[u8]]) -> Vec<StepObs> {
+    let mut w = World::new();
+    let link = Link::new();
+    let mechanism = match cfg.mech {
+        Mech::External => AuthMechanism::External,
+        Mech::Anonymous => AuthMechanism::Anonymous,
+    };
+    let sock = link.end_a(SockCfg {
+        uid: cfg.uid,
+        can_pass_fd: cfg.fd,
+        mechanism,
+    });
+    let mut h = w.spawn("server-build", async move {
+        Builder::socket(sock)
+            .server(GUID)
+            .unwrap()
+            .p2p()
+            .auth_mechanism(mechanism)
+            .internal_executor(false)
+            .build()
+            .await
+    });
+    let mut out = Vec::with_capacity(chunks.len());
+    let mut seen = 0usize;
+    let mut conn: Option<Connection> = None;
+    let mut status = Status::Waiting;
+    if let Err(p) = catch(|| w.settle()) {
+        status = Status::Panic(format!("{p} at {}", vcommon::last_panic_location()));
+    }
+    for c in chunks {
+        if status.terminated() {
+            break;
+        }
+        link.b2a.push(c, vec![]);
+        match catch(|| w.settle()) {
+            Err(p) => status = Status::Panic(format!("{p} at {}", vcommon::last_panic_location())),
+            Ok(()) => {
+                if let Some(r) = h.take() {
+                    match r {
+                        Ok(c) => {
+                            conn = Some(c);
+                            status = Status::Authenticated;
+                        }
+                        Err(e) => status = Status::Aborted(e.to_string()),
+                    }
+                }
+            }
+        }
+        let all = link.a2b.written();
+        out.push(StepObs {
+            reply: all[seen..].to_vec(),
+            status: status.clone(),
+        });
+        seen = all.len();
+    }
+    // Tear down without leaking: a task parked on a channel waker would otherwise keep its future
+    // (and through it the channel) alive in a reference cycle.
+    drop(conn);
+    h.cancel();
+    drop(h);
+    drop(w);
+    for ch in [&link.a2b, &link.b2a] {
+        let (a, b) = ch.with(|c| (c.read_waker.take(), c.write_waker.take()));
+        drop(a);
+        drop(b);
+    }
+    out
+}
+
+fn show(bytes: &[u8]) -> String {
+    let mut s = String::new();
+    for b in bytes {
+        match b {
+            b'\r' => s.push_str("\\r"),
+            b'\n' => s.push_str("\\n"),
+            0 => s.push_str("\\0"),
+            0x20..=0x7e => s.push(*b as char),
+            _ => s.push_str(&format!("\\x{b:02x}")),
+        }
+    }
+    s
+}
+
+fn show_lines(lines: &[&[u8]]) -> String {
+    lines.iter().map(|l| format!("\"{}\"", show(l))).collect::<Vec<_>>().join(" ")
+}
+
+#[derive(Clone)]
+struct Taint {
+    clause: &'static str,
+    features: BTreeMap<String, String>,
+}
+
+struct Judgement {
+    /// Violations found at the LAST line of the transcript (earlier lines are judged at their own
+    /// tree node).
+    violations: Vec<Violation>,
+    /// The history may be extended below this transcript.
+    live: bool,
+    /// (reference state / terminal, observation) keys reached along the transcript.
+    state_keys: Vec<u64>,
+    /// Tolerated deviation taken at the last line, if any.
+    tolerated: Option<String>,
+    outcome: String,
+}
+
+fn observed_name(reply: &Result<Reply, String>, status: &Status) -> String {
+    let r = match reply {
+        Ok(r) => r.to_string(),
+        Err(_) => "malformed-reply".to_string(),
+    };
+    match status {
+        Status::Waiting => r,
+        Status::Authenticated => "authenticated".into(),
+        Status::Aborted(_) => {
+            if matches!(reply, Ok(Reply::None)) {
+                "aborted".into()
+            } else {
+                format!("aborted-after-{r}")
+            }
+        }
+        Status::Panic(_) => "panic".into(),
+    }
+}
+
+fn alt_matches(a: &Alt, reply: Reply, status: &Status) -> bool {
+    a.reply == reply
+        && match (a.next, status) {
+            (Next::To(_) | Next::Undefined, Status::Waiting) => true,
+            (Next::Authenticated, Status::Authenticated) => true,
+            (Next::Disconnect, Status::Aborted(_)) => true,
+            _ => false,
+        }
+}
+
+fn base_features(v: Violation, cfg: &Cfg, state: SState, exp: &Expectation, observed: &str) -> Violation {
+    let mut v = v
+        .feat("mechanism", cfg.mech.name())
+        .feat("credentials", if cfg.uid.is_some() { "known" } else { "unknown" })
+        .feat("leading_nul", cfg.nul)
+        .feat("state", state.short())
+        .feat("line_class", &exp.line_class)
+        .feat("expected", exp.alts[0].reply.to_string() + match exp.alts[0].next {
+            Next::Authenticated => "+authenticated",
+            Next::Disconnect => "+disconnect",
+            _ => "",
+        })
+        .feat("observed", observed);
+    if let Some(i) = exp.identity {
+        v = v.feat("identity", i);
+    }
+    v
+}
+
+/// Features that describe the input line itself.
+fn line_features(v: Violation, line: &[u8]) -> Violation {
+    let (_, content) = crate::refsasl::split_ending(line);
+    let v = v.feat("line", show(line));
+    match crate::refsasl::parse_client_line(content) {
+        crate::refsasl::ClientLine::Auth { mech, .. } => v.feat(
+            "requested_mechanism",
+            match mech.as_deref() {
+                None => "none",
+                Some(m) if Mech::parse(m).is_some() => "known-name",
+                Some(_) => "unknown-name",
+            },
+        ),
+        _ => v,
+    }
+}
+
+/// Compare the observations of a line-by-line execution with the reference machine.
+fn judge(cfg: &Cfg, lines: &[&[u8]], obs: &[StepObs], replay: &Value) -> Judgement {
+    let mut r = ServerRef::new(cfg.server_cfg());
+    let mut taint: Option<Taint> = None;
+    let mut j = Judgement {
+        violations: vec![],
+        live: true,
+        state_keys: vec![],
+        tolerated: None,
+        outcome: String::new(),
+    };
+    for (i, line) in lines.iter().enumerate() {
+        let last = i + 1 == lines.len();
+        let Some(o) = obs.get(i) else {
+            // the handshake terminated before this line: cannot happen for tree nodes
+            j.live = false;
+            break;
+        };
+        let state = r.state;
+        let exp = r.expect(line);
+        let reply = classify_server_reply(&o.reply, GUID);
+        let observed = observed_name(&reply, &o.status);
+        j.outcome = format!("{}:{}", exp.line_class.split(':').next().unwrap_or(""), observed);
+        let ctx = |what: &str| {
+            format!(
+                "{} creds={} fd={} nul={}: after {} in state {} the line \"{}\" {what}; server wrote \"{}\", status {:?}",
+                cfg.mech.name(),
+                if cfg.uid.is_some() { "known" } else { "unknown" },
+                cfg.fd,
+                cfg.nul,
+                show_lines(&lines[..i]),
+                state.short(),
+                show(line),
+                show(&o.reply),
+                o.status
+            )
+        };
+        let mut viol: Option<Violation> = None;
+        let mut next_live = false;
+        let mut after_key = String::new();
+
+        if !cfg.nul && i == 0 {
+            // Without the leading NUL the conversation must not succeed; everything else a server
+            // does with such a stream is left open and the history is not extended.
+            match &o.status {
+                Status::Panic(p) => {
+                    viol = Some(base_features(
+                        Violation::new(CL_PANIC, ctx(&format!("made the server panic: {p}")), replay.clone()),
+                        cfg, state, &exp, "panic",
+                    ));
+                }
+                Status::Authenticated => {
+                    viol = Some(base_features(
+                        Violation::new(CL_COMPLETES, ctx("completed the handshake without the leading NUL"), replay.clone()),
+                        cfg, state, &exp, "authenticated",
+                    ));
+                }
+                _ => {}
+            }
+            after_key = "no-nul".into();
+        } else if let Status::Panic(p) = &o.status {
+            viol = Some(base_features(
+                Violation::new(CL_PANIC, ctx(&format!("made the server panic: {p}")), replay.clone()),
+                cfg, state, &exp, "panic",
+            ));
+            after_key = "panic".into();
+        } else {
+            let hit = match &reply {
+                Ok(rep) => exp.alts.iter().position(|a| alt_matches(a, *rep, &o.status)),
+                Err(_) => None,
+            };
+            match hit {
+                Some(k) => {
+                    let a = exp.alts[k];
+                    if k > 0 && last {
+                        j.tolerated = Some(format!(
+                            "{} in {}: spec {}{}, implementation {}",
+                            exp.line_class,
+                            state.short(),
+                            exp.alts[0].reply,
+                            if exp.alts[0].next == Next::Disconnect { "+disconnect" } else { "" },
+                            observed
+                        ));
+                    }
+                    if a.next == Next::Authenticated {
+                        if let Some(t) = &taint {
+                            // completion that rests on an OK the reference did not grant
+                            let mut v = Violation::new(
+                                t.clause,
+                                ctx("completed the handshake (build() returned a connection) although the preceding OK was not legitimate"),
+                                replay.clone(),
+                            );
+                            v.features = t.features.clone();
+                            viol = Some(v.feat("stage", "completed"));
+                        }
+                    }
+                    r.advance(&a);
+                    next_live = matches!(a.next, Next::To(_));
+                    after_key = match a.next {
+                        Next::To(s) => s.short().to_string(),
+                        Next::Authenticated => "authenticated".into(),
+                        Next::Disconnect => "disconnected".into(),
+                        Next::Undefined => "undefined".into(),
+                    };
+                }
+                None => {
+                    if matches!(reply, Ok(Reply::Ok)) && o.status == Status::Waiting {
+                        // An OK the reference does not grant. Record it and follow the
+                        // implementation so that the completed handshake is witnessed as well.
+                        let clause = if exp.identity.is_some() { CL_EXTERNAL } else { CL_COMPLETES };
+                        let v = base_features(
+                            Violation::new(clause, ctx("was answered OK although the reference does not accept it"), replay.clone()),
+                            cfg, state, &exp, &observed,
+                        );
+                        taint = Some(Taint {
+                            clause,
+                            features: v.features.clone(),
+                        });
+                        viol = Some(v.feat("stage", "ok-reply"));
+                        r.state = SState::WaitingForBegin;
+                        next_live = true;
+                        after_key = "illegitimate-WaitingForBegin".into();
+                    } else if o.status == Status::Authenticated {
+                        viol = Some(base_features(
+                            Violation::new(CL_COMPLETES, ctx("completed the handshake (build() returned a connection)"), replay.clone()),
+                            cfg, state, &exp, &observed,
+                        ));
+                        after_key = "authenticated".into();
+                    } else {
+                        let what = match &reply {
+                            Err(d) => format!("got a malformed reply ({d})"),
+                            Ok(_) => format!(
+                                "expected {}{}, observed {}",
+                                exp.alts[0].reply,
+                                match exp.alts[0].next {
+                                    Next::Authenticated => " and completion",
+                                    Next::Disconnect => " and disconnect",
+                                    _ => " and the conversation to continue",
+                                },
+                                observed
+                            ),
+                        };
+                        viol = Some(base_features(
+                            Violation::new(exp.clause, ctx(&what), replay.clone()),
+                            cfg, state, &exp, &observed,
+                        ));
+                        after_key = format!("diverged:{observed}");
+                    }
+                }
+            }
+        }
+        j.state_keys.push(hash64(&(state.short(), taint.is_some(), &exp.line_class, &observed, &after_key)));
+        j.live = next_live;
+        if last {
+            if let Some(v) = viol {
+                j.violations.push(line_features(v, line));
+            }
+        }
+        if !next_live {
+            break;
+        }
+    }
+    j
+}
+
+fn lines_of<'a>(alpha: &'a [Vec<u8>], syms: &[u8]) -> Vec<&'a [u8]> {
+    syms.iter().map(|s| alpha[*s as usize].as_slice()).collect()
+}
+
+/// Line-by-line chunks: the NUL travels with the first line.
+fn line_chunks(cfg: &Cfg, lines: &[&[u8]]) -> Vec<Vec<u8>> {
+    let mut out = vec![];
+    for (i, l) in lines.iter().enumerate() {
+        let mut c = vec![];
+        if i == 0 && cfg.nul {
+            c.push(0u8);
+        }
+        c.extend_from_slice(l);
+        out.push(c);
+    }
+    out
+}
+
+fn replay_payload(cfg: &Cfg, lines: &[&[u8]], chunks: Option<&[usize]>) -> Value {
+    json!({
+        "cfg": cfg.json(),
+        "lines": lines.iter().map(|l| String::from_utf8_lossy(l).into_owned()).collect::<Vec<_>>(),
+        "chunk_sizes": chunks,
+    })
+}
+
+/// Final (status, everything written) of an execution.
+fn summary(obs: &[StepObs]) -> (Status, Vec<u8>) {
+    let mut w = vec![];
+    for o in obs {
+        w.extend_from_slice(&o.reply);
+    }
+    (obs.last().map(|o| o.status.clone()).unwrap_or(Status::Waiting), w)
+}
+
+fn run_split(cfg: &Cfg, stream: &[u8], sizes: &[usize]) -> (Status, Vec<u8>) {
+    let mut chunks: Vec<&[u8]> = vec![];
+    let mut pos = 0;
+    for s in sizes {
+        chunks.push(&stream[pos..pos + s]);
+        pos += s;
+    }
+    summary(&execute(cfg, &chunks))
+}
+
+struct Counters {
+    executions: u64,
+    lines_fed: u64,
+    split_runs: u64,
+}
+
+pub fn main(args: &Args) -> i32 {
+    if let Some(p) = &args.replay {
+        return replay(p);
+    }
+    let report = Report::new("C16", args.tier, args.seed, "model_checking");
+    let alpha = alphabet();
+    let k = alpha.len();
+    let max_len: usize = std::env::var("VERIF_C16_MAXLEN")
+        .ok()
+        .and_then(|s| s.parse().ok())
+        .unwrap_or(args.tier.pick(3, 4));
+    let split_len: usize = 2;
+
+    let mut cfgs = vec![];
+    for mech in [Mech::External, Mech::Anonymous] {
+        for uid in [Some(UID), None] {
+            for fd in [true, false] {
+                cfgs.push(Cfg { mech, uid, fd, nul: true });
+            }
+        }
+    }
+    // streams that lack the leading NUL byte (one line deep: the continuation has no meaning)
+    for mech in [Mech::External, Mech::Anonymous] {
+        cfgs.push(Cfg { mech, uid: Some(UID), fd: true, nul: false });
+    }
+
+    let counters = Mutex::new(Counters { executions: 0, lines_fed: 0, split_runs: 0 });
+    let states: Mutex<BTreeSet<u64>> = Mutex::new(BTreeSet::new());
+    let tolerated: Mutex<BTreeMap<String, u64>> = Mutex::new(BTreeMap::new());
+    let per_depth: Mutex<BTreeMap<usize, (u64, u64)>> = Mutex::new(BTreeMap::new());
+    let vsummary: Mutex<BTreeMap<String, u64>> = Mutex::new(BTreeMap::new());
+
+    for cfg in &cfgs {
+        let depth_limit = if cfg.nul { max_len } else { 1 };
+        // the empty transcript: the server must simply wait
+        {
+            let obs = execute(cfg, &[]);
+            report.eval(1);
+            counters.lock().unwrap().executions += 1;
+            if !obs.is_empty() {
+                vcommon::machinery_failure("C16: empty transcript produced observations");
+            }
+        }
+        let mut frontier: Vec<Vec<u8>> = vec![vec![]];
+        for depth in 1..=depth_limit {
+            let n = frontier.len() * k;
+            let next: Mutex<Vec<(usize, Vec<u8>)>> = Mutex::new(vec![]);
+            par_for(n, 16, |idx| {
+                let mut syms = frontier[idx / k].clone();
+                syms.push((idx % k) as u8);
+                let lines = lines_of(&alpha, &syms);
+                let chunks = line_chunks(cfg, &lines);
+                let chunk_refs: Vec<&[u8]> = chunks.iter().map(|c| c.as_slice()).collect();
+                let obs = execute(cfg, &chunk_refs);
+                let payload = replay_payload(cfg, &lines, None);
+                if obs.len() != lines.len() {
+                    vcommon::machinery_failure(&format!(
+                        "C16: harness nondeterminism: prefix of {} was live but terminated on re-execution",
+                        show_lines(&lines)
+                    ));
+                }
+                let j = judge(cfg, &lines, &obs, &payload);
+                report.eval(1);
+                report.outcome(&j.outcome);
+                let (status, written) = summary(&obs);
+                if !written.is_empty() || status == Status::Authenticated {
+                    report.nontrivial(hash64(&(cfg, &syms)));
+                }
+                if let Some(t) = &j.tolerated {
+                    *tolerated.lock().unwrap().entry(t.clone()).or_insert(0) += 1;
+                }
+                states.lock().unwrap().extend(j.state_keys.iter().cloned());
+                if idx % 997 == 0 && depth >= 2 {
+                    report.sample(json!({
+                        "cfg": cfg.json(),
+                        "lines": lines.iter().map(|l| show(l)).collect::<Vec<_>>(),
+                        "replies": obs.iter().map(|o| show(&o.reply)).collect::<Vec<_>>(),
+                        "status": format!("{:?}", status),
+                    }));
+                }
+                for v in j.violations {
+                    let mut f = v.features.clone();
+                    for k in ["mechanism", "state", "leading_nul", "expected", "line"] {
+                        f.remove(k);
+                    }
+                    *vsummary.lock().unwrap().entry(format!("{} {:?}", v.clause, f)).or_insert(0) += 1;
+                    report.violation(v);
+                }
+                if j.live && depth < depth_limit {
+                    next.lock().unwrap().push((idx, syms.clone()));
+                }
+
+                // ---- read splits: the result must not depend on them ----
+                let stream: Vec<u8> = chunks.concat();
+                let mut local_runs = 1u64;
+                let mut local_split = 0u64;
+                let mut check = |sizes: &[usize]| {
+                    let (s2, w2) = run_split(cfg, &stream, sizes);
+                    local_runs += 1;
+                    local_split += 1;
+                    report.eval(1);
+                    if s2 != status || w2 != written {
+                        let kind = if matches!(s2, Status::Panic(_)) && !matches!(status, Status::Panic(_)) {
+                            "panic-only-when-split"
+                        } else {
+                            "different-result"
+                        };
+                        report.violation(
+                            Violation::new(
+                                CL_SPLIT,
+                                format!(
+                                    "{} creds={} fd={} nul={}: transcript {} delivered line by line gives {:?} / \"{}\", delivered in chunks {:?} gives {:?} / \"{}\"",
+                                    cfg.mech.name(), if cfg.uid.is_some() { "known" } else { "unknown" }, cfg.fd, cfg.nul,
+                                    show_lines(&lines), status, show(&written), sizes, s2, show(&w2)
+                                ),
+                                replay_payload(cfg, &lines, Some(sizes)),
+                            )
+                            .feat("mechanism", cfg.mech.name())
+                            .feat("kind", kind)
+                            .feat("line_by_line", status.class())
+                            .feat("split", s2.class()),
+                        );
+                    }
+                };
+                // all at once, byte at a time
+                check(&[stream.len()]);
+                check(&vec![1usize; stream.len()]);
+                if syms.len() <= split_len {
+                    for cuts in enumerate::cuts(stream.len(), 2) {
+                        if cuts.is_empty() {
+                            continue;
+                        }
+                        check(&enumerate::chunks_from_cuts(stream.len(), &cuts));
+                    }
+                }
+                let mut c = counters.lock().unwrap();
+                c.executions += local_runs;
+                c.split_runs += local_split;
+                c.lines_fed += lines.len() as u64;
+                drop(c);
+                let mut pd = per_depth.lock().unwrap();
+                let e = pd.entry(depth).or_insert((0, 0));
+                e.0 += 1;
+                if j.live {
+                    e.1 += 1;
+                }
+            });
+            let mut nx = next.into_inner().unwrap();
+            nx.sort();
+            frontier = nx.into_iter().map(|(_, s)| s).collect();
+            if frontier.is_empty() {
+                break;
+            }
+        }
+    }
+
+    let c = counters.into_inner().unwrap();
+    let n_states = states.lock().unwrap().len();
+    report.set("states", json!(n_states.max(1)));
+    report.set("transitions", json!(c.lines_fed.max(1)));
+    report.set("traces_validated_against_impl", json!(c.executions));
+    report.set("split_executions", json!(c.split_runs));
+    report.set(
+        "states_meaning",
+        json!("distinct (reference state, line class, observed reply/status, reference state after) tuples; informational, no merging is done"),
+    );
+    report.set("alphabet", json!(alpha.iter().map(|l| show(l)).collect::<Vec<_>>()));
+    report.set("max_transcript_length", json!(max_len));
+    report.set("configurations", json!(cfgs.iter().map(|c| c.json()).collect::<Vec<_>>()));
+    report.set(
+        "tree_nodes_per_depth",
+        json!(per_depth
+            .lock()
+            .unwrap()
+            .iter()
+            .map(|(d, (n, live))| json!({"depth": d, "transcripts": n, "still_waiting": live}))
+            .collect::<Vec<_>>()),
+    );
+    report.set(
+        "tolerated_spec_deviations",
+        json!(tolerated
+            .lock()
+            .unwrap()
+            .iter()
+            .map(|(k, n)| json!({"what": k, "transcripts": n}))
+            .collect::<Vec<_>>()),
+    );
+    report.set(
+        "violating_transcripts_by_identity",
+        json!(vsummary.lock().unwrap().iter().map(|(k, n)| json!({"identity": k, "transcripts": n})).collect::<Vec<_>>()),
+    );
+    report.assume("the scripted socket reports peer credentials / fd capability exactly as configured (SockCfg)");
+    report.assume("World::settle() reaching quiescence with build() unfinished means the handshake waits for input (writes never block on the scripted socket)");
+    report.assume("reference server machine (refsasl) written from the D-Bus specification; where the property is silent the specification's reply is not enforced (listed under tolerated_spec_deviations)");
+    report.finish(
+        "history tree: all sequences of client lines over the alphabet up to max_transcript_length per configuration \
+         (mechanism x peer uid known/unknown x fd-capable, plus NUL-less streams one line deep), extended only below \
+         prefixes after which the real handshake still waits for input; every transcript is executed line by line, \
+         all at once and byte at a time, and with every 1- and 2-cut split when it has <= 2 lines. \
+         non-trivial = the server wrote at least one reply or authenticated",
+        true,
+    )
+}
+
+fn replay(path: &str) -> i32 {
+    let art = vcommon::load_replay(path);
+    let rp = &art["replay"];
+    let cfg = Cfg::from_json(&rp["cfg"]);
+    let lines_owned: Vec<Vec<u8>> = rp["lines"]
+        .as_array()
+        .map(|a| a.iter().map(|l| l.as_str().unwrap_or("").as_bytes().to_vec()).collect())
+        .unwrap_or_default();
+    let lines: Vec<&[u8]> = lines_owned.iter().map(|l| l.as_slice()).collect();
+    println!("C16 replay: cfg={} clause={}", cfg.json(), art["clause"]);
+    let chunks = line_chunks(&cfg, &lines);
+    let chunk_refs: Vec<&[u8]> = chunks.iter().map(|c| c.as_slice()).collect();
+    let obs = execute(&cfg, &chunk_refs);
+    let mut r = ServerRef::new(cfg.server_cfg());
+    for (i, l) in lines.iter().enumerate() {
+        let exp = r.expect(l);
+        let alts: Vec<String> = exp
+            .alts
+            .iter()
+            .map(|a| format!("{}→{:?}", a.reply, a.next))
+            .collect();
+        match obs.get(i) {
+            Some(o) => {
+                println!(
+                    "  line {i} \"{}\" [{} in {}]: server wrote \"{}\", status {:?}; reference allows [{}]",
+                    show(l),
+                    exp.line_class,
+                    r.state.short(),
+                    show(&o.reply),
+                    o.status,
+                    alts.join(", ")
+                );
+                if let Ok(rep) = classify_server_reply(&o.reply, GUID) {
+                    if let Some(a) = exp.alts.iter().find(|a| alt_matches(a, rep, &o.status)) {
+                        r.advance(a);
+                    } else if rep == Reply::Ok {
+                        r.state = SState::WaitingForBegin;
+                    }
+                }
+            }
+            None => println!("  line {i} \"{}\": not delivered (handshake already terminated)", show(l)),
+        }
+    }
+    let payload = replay_payload(&cfg, &lines, None);
+    let j = judge(&cfg, &lines, &obs, &payload);
+    let mut bad = !j.violations.is_empty();
+    for v in &j.violations {
+        println!("  violation: clause={} features={:?}", v.clause, v.features);
+    }
+    if let Some(sizes) = rp["chunk_sizes"].as_array() {
+        let sizes: Vec<usize> = sizes.iter().map(|s| s.as_u64().unwrap_or(1) as usize).collect();
+        let stream: Vec<u8> = chunks.concat();
+        let (s1, w1) = summary(&obs);
+        let (s2, w2) = run_split(&cfg, &stream, &sizes);
+        println!("  line by line: {:?} wrote \"{}\"", s1, show(&w1));
+        println!("  chunks {:?}: {:?} wrote \"{}\"", sizes, s2, show(&w2));
+        if s1 != s2 || w1 != w2 {
+            println!("  violation: clause={CL_SPLIT}");
+            bad = true;
+        }
+    }
+    println!("C16 replay: {}", if bad { "REPRODUCED" } else { "not reproduced" });
+    if bad {
+        1
+    } else {
+        0
+    }
 }
